@@ -433,7 +433,7 @@ def run(prog, tier, extra=None):
     # the ledger C01's verdicts are evaluated against is the one wind/unwind maintain, and the only un-signed spends the
     # validator admits are the rebroadcasts it re-derives: both mechanisms are decided by the C03 / C13 rules, cross-listed here
     from ._include import include
-    include(res, prog, tier, extra, "c03", ["C03.lockstep", "C03.full-before-apply", "C03.order", "C03.ledger-owner", "C03.marker-by-hash"],
+    include(res, prog, tier, extra, "c03", ["C03.lockstep", "C03.full-before-apply", "C03.order", "C03.ledger-owner", "C03.marker-by-hash", "C03.tx-apply-total"],
             "inputs are checked against the UTXO set of that same chain only if wind/unwind keep the set in step with the chain")
     include(res, prog, tier, extra, "c13", ["C13.derive"],
             "an ATR-typed transaction skips the signature and input checks, so every one must be matched against the derived rebroadcast commitment")
